@@ -16,6 +16,7 @@ After every step the runner dumps every node reachable from every handle it hold
 canonical order) and evaluates C01 on the real objects.
 """
 
+import contextlib
 import operator
 
 DEFAULT_FLAGS = [False, True, False]
@@ -70,8 +71,13 @@ def _prefix(a, b):
   return len(a) <= len(b) and all(x == y and type(x) is type(y) for x, y in zip(a, b))
 
 
+# keys that look like path expressions (a key is one path component, whatever it contains)
+SPECIAL_KEYS = {4: 'm.c', 5: 'w[0]', 6: 'a b', 7: 'x]y.'}
+SPECIAL_KEYS_REV = {v: k for k, v in SPECIAL_KEYS.items()}
+
+
 def key_text(j):
-  return 'k%d' % j
+  return SPECIAL_KEYS.get(j, 'k%d' % j)
 
 
 class Runner:
@@ -189,6 +195,8 @@ class Runner:
       return ('atom', _STR.setdefault(abs(j[1]), 's%d' % abs(j[1])))
     if tag == 'q':
       return ('opq',)
+    if tag == 'T':
+      return ('tup', abs(j[1]) % 4)
     if tag == 'I':
       return ('inferred',)
     if tag == 'R':
@@ -260,6 +268,17 @@ class Runner:
       return False
     return self.believed_root(o, cx['fuel']) is self.believed_root(cx['target'], cx['fuel'])
 
+  def sanitize(self, ve):
+    """what survives pg.from_json(pg.to_json(v)): plain values, containers with default flags."""
+    if ve[0] == 'atom' and isinstance(ve[1], (int, str)) and not isinstance(ve[1], bool):
+      return ve
+    if ve[0] == 'node':
+      _, kind, _, items = ve
+      if isinstance(kind, list) and kind[1] >= 2:
+        return ('atom', None)
+      return ('node', kind, list(DEFAULT_FLAGS), [(k, self.sanitize(x)) for k, x in items])
+    return ('atom', None)
+
   def build(self, ve, top=False):
     """Python value of a resolved VE. Containers with default flags stay plain Python
     containers (pyglove converts them when it formalizes the value); flagged containers and
@@ -269,6 +288,8 @@ class Runner:
       return ve[1]
     if ve[0] == 'opq':
       return Opq()
+    if ve[0] == 'tup':
+      return tuple(Opq() for _ in range(ve[1]))
     if ve[0] == 'inferred':
       return pg.symbolic.ValueFromParentChain()
     if ve[0] == 'mkref':
@@ -320,7 +341,7 @@ class Runner:
     self.pre_nodes = nodes
     self.result_new = None
     fam = 'd' if name in DICT_OPS else 'l' if name in LIST_OPS else 'o' if name in OBJ_OPS else '*'
-    target = None if name == 'new' else self.pick(nodes, fam, abs(j.get('t', 0)))
+    target = None if name in ('new', 'newjson') else self.pick(nodes, fam, abs(j.get('t', 0)))
     self.last_target = target
     cx = {'nodes': nodes, 'target': target, 'unsafe': bool(j.get('unsafe')), 'fuel': len(nodes)}
     used = set()
@@ -343,6 +364,17 @@ class Runner:
       if ve[0] != 'node':
         return 'skip'
       self.result_new = self.build(ve, top=True)
+      return 'ok'
+    if name == 'newjson':
+      # deserialization: the value travels through JSON (python form or text)
+      ve = self.sanitize(v('v'))
+      if ve[0] != 'node':
+        return 'skip'
+      value = self.build(ve, top=True)
+      if j.get('str'):
+        self.result_new = pg.from_json_str(pg.to_json_str(value))
+      else:
+        self.result_new = pg.from_json(pg.to_json(value))
       return 'ok'
     if target is None:
       return 'skip'
@@ -458,7 +490,17 @@ class Runner:
         raise AssertionError('unknown op %s' % name)
 
     try:
-      with pg.notify_on_change(bool(notify)):
+      with contextlib.ExitStack() as stack:
+        stack.enter_context(pg.notify_on_change(bool(notify)))
+        if name == 'clone':
+          # cloning inside scoped flags must not leak the scope into the clone
+          sc_ = j.get('scope') or {}
+          if 'partial' in sc_:
+            stack.enter_context(pg.allow_partial(bool(sc_['partial'])))
+          if 'sealed' in sc_:
+            stack.enter_context(pg.as_sealed(bool(sc_['sealed'])))
+          if 'accw' in sc_:
+            stack.enter_context(pg.allow_writable_accessors(bool(sc_['accw'])))
         call()
       return 'ok'
     except (IndexError, KeyError, ValueError, TypeError, AttributeError, AssertionError,
@@ -523,6 +565,14 @@ class Runner:
         self.opq_serial[id(v)] = len(self.opq_serial)
         self.keep.append(v)
       return ['q', self.opq_serial[id(v)]]
+    if isinstance(v, tuple):
+      out = []
+      for x in v:
+        if id(x) not in self.opq_serial:
+          self.opq_serial[id(x)] = len(self.opq_serial)
+          self.keep.append(x)
+        out.append(self.opq_serial[id(x)])
+      return ['t', out]
     if v == pg.MISSING_VALUE and not isinstance(v, (int, str)):
       return 'M'
     if isinstance(v, bool):
@@ -536,6 +586,8 @@ class Runner:
   def key_j(self, k):
     if isinstance(k, int):
       return ['i', k]
+    if isinstance(k, str) and k in SPECIAL_KEYS_REV:
+      return ['k', SPECIAL_KEYS_REV[k]]
     if isinstance(k, str) and k[:1] == 'k' and k[1:].isdigit():
       return ['k', int(k[1:])]
     return ['?', repr(k)]
@@ -627,6 +679,8 @@ def canon(dump):
               [[k, conv(c)] for k, c in t['items']]]
     if isinstance(t, list) and t and t[0] == 'q':
       return ['q', opq.setdefault(('p', t[1]), len(opq))]
+    if isinstance(t, list) and len(t) == 2 and t[0] == 't' and isinstance(t[1], list):
+      return ['t', [opq.setdefault(('p', x), len(opq)) for x in t[1]]]
     return t
   return [conv(r) for r in dump]
 
